@@ -258,7 +258,7 @@ func TestC06(t *testing.T) {
 			}
 		}
 		for oi, order := range orders {
-			what := runSet(t, r, g, fmt.Sprintf("s%d_%d", si, oi), progs, order, np == 4)
+			what := runSet(t, r, g, fmt.Sprintf("s%d_%d", si, oi), progs, order, np == 4 || (np >= 2 && oi%2 == 1))
 			r.Eval(1)
 			if what != "" {
 				r.Violation(strings.Join(strings.Fields(what)[:2], "-"), map[string]any{"programs": progs, "sources": sources(progs), "load_order": order, "what": what})
@@ -352,7 +352,43 @@ func runSet(t *testing.T, r *ev.Run, g *ev.RNG, tag string, progs []pspec, order
 			if !loaded[i] {
 				continue
 			}
-			switch g.Intn(4) {
+			switch g.Intn(5) {
+			case 4:
+				// reload with the kind of a non-hidden metric flipped: the name is in the
+				// store with the other kind (at least from this program's running
+				// version), so the load must be refused and change nothing
+				f := progs[i]
+				f.Decls = append([]mdecl{}, f.Decls...)
+				flipped := false
+				for di := range f.Decls {
+					// only where ANOTHER loaded program exports the name with the current
+					// kind: then the refusal is the statement's permitted interaction
+					// (whether a program may change the kind of a name only it uses is
+					// not this property's business)
+					other := false
+					for j, q := range progs {
+						if j == i || !loaded[j] {
+							continue
+						}
+						for _, qd := range q.Decls {
+							if !qd.Hidden && qd.Name == f.Decls[di].Name && qd.Kind == f.Decls[di].Kind {
+								other = true
+							}
+						}
+					}
+					if !f.Decls[di].Hidden && other {
+						f.Decls[di].Kind = map[string]string{"counter": "gauge", "gauge": "counter"}[f.Decls[di].Kind]
+						flipped = true
+						break
+					}
+				}
+				if flipped {
+					f.Nonce += 300
+					if err := w.rt.CompileAndRun(name(i), strings.NewReader(f.source())); err == nil {
+						return fmt.Sprintf("kind-flip reload: program %d changed the kind of a metric name that is in the store with the other kind and was accepted", i)
+					}
+					r.Count("interleaved_kind_flip_reloads", 1)
+				}
 			case 0:
 				w.rt.UnloadProgram(name(i))
 				delete(second, i)
